@@ -133,6 +133,9 @@ impl Prop for C11 {
 
 macro_rules! server_prop {
     ($name:ident, $id:expr, $prof:path, $check:path, $quick:expr, $thorough:expr, $rule:expr) => {
+        server_prop!($name, $id, $prof, $check, $quick, $thorough, $rule, Vec::new);
+    };
+    ($name:ident, $id:expr, $prof:path, $check:path, $quick:expr, $thorough:expr, $rule:expr, $probes:expr) => {
         pub struct $name;
         impl Prop for $name {
             type Scenario = SScenario;
@@ -154,8 +157,19 @@ macro_rules! server_prop {
             fn run_case(&self, sc: &SScenario) -> CaseResult {
                 $check(sc)
             }
+            fn probes(&self) -> Vec<(String, String, SScenario)> {
+                $probes()
+            }
         }
     };
+}
+
+fn c06_probes() -> Vec<(String, String, SScenario)> {
+    vec![(
+        "limiter-blocks-housekeeping".into(),
+        "max_concurrent_requests(1), request A in flight, a throttle reply stuck in a not-ready sink: A's deadline passes but its handler is not aborted until the sink becomes ready".into(),
+        f6_probe(false),
+    )]
 }
 
 server_prop!(C08, "C08", sprops::c08_profile, sprops::c08_check, 2000, 30_000,
@@ -168,7 +182,8 @@ server_prop!(C06, "C06", sprops::c06_profile, sprops::c06_check, 2000, 30_000,
     "Scenario = server channel config (limit none/1/2/4, both paths, both readiness models) + up to 70 generated ops under virtual time: 1-6 concurrent requests with deadlines already expired, 0, us..minutes, days..2.1y; \
      clock steps landing on deadline-1ms/deadline/+1ms/+2ms; handlers completed before/at/after their deadline; sink blocked for stretches (finding F6 region steered around and counted). \
      Oracle: no handler is dropped unfinished before its deadline without a cancel/application drop/channel drop; at the first quiescence >= max(D, read time)+2ms the handler is gone and never polled again; nothing is written for an expired request; \
-     a handler that completed before D is answered at the next writable quiescence before D. Non-trivial = one request expired while another with a different deadline was answered later, or a completion within 1 ms of its deadline; distinct = distinct scenario JSON.");
+     a handler that completed before D is answered at the next writable quiescence before D. Non-trivial = one request expired while another with a different deadline was answered later, or a completion within 1 ms of its deadline; distinct = distinct scenario JSON.",
+    c06_probes);
 
 server_prop!(C12, "C12", sprops::c12_profile, sprops::c12_check, 2000, 30_000,
     "Scenario = server channel behind max_concurrent_requests(L), L in {0,1,2,3,5}, + up to 70 generated ops: bursts larger than L, cancels, a Cancel immediately followed by a fresh request before one poll, completions and response writes in any order, sink blocked for stretches, duplicates-in-flight. \
@@ -212,6 +227,13 @@ impl Prop for C04 {
             Sc04::Server(s) => sprops::c04_check(s),
             Sc04::Chain(c) => super::chprops::c04c_check(c),
         }
+    }
+    fn probes(&self) -> Vec<(String, String, Sc04)> {
+        vec![(
+            "limiter-blocks-housekeeping".into(),
+            "max_concurrent_requests(1), request A in flight, a throttle reply stuck in a not-ready sink: the peer's Cancel(A) is not acted upon until the sink becomes ready".into(),
+            Sc04::Server(f6_probe(true)),
+        )]
     }
 }
 
@@ -280,4 +302,26 @@ impl Prop for C18 {
     fn run_case(&self, sc: &Self::Scenario) -> CaseResult {
         super::chprops::c18_check(sc)
     }
+}
+
+/// Deterministic reproduction of finding F6 (no steering): limit 1, cap-1 sink blocked, A in flight,
+/// B throttled (its reply fills the sink), then either Cancel(A) or A's deadline passing.
+pub fn f6_probe(cancel: bool) -> SScenario {
+    use crate::engines::client::Dl;
+    use crate::engines::server::{IdKind, SOp, ServerCfg};
+    let mut ops = vec![
+        SOp::Marker(99),
+        SOp::Budget { n: 0 },
+        SOp::SendRequest { idk: IdKind::Fresh, dl: if cancel { Dl::InSecs(3600) } else { Dl::InUs(50_000) }, trace: 0, sampled: false, hold: false },
+        SOp::Drain,
+        SOp::SendRequest { idk: IdKind::Fresh, dl: Dl::InSecs(3600), trace: 0, sampled: false, hold: false },
+        SOp::Drain,
+    ];
+    if cancel {
+        ops.push(SOp::SendCancel { sel: 0, unknown: None });
+    } else {
+        ops.push(SOp::Advance { us: 60_000 });
+    }
+    ops.push(SOp::Drain);
+    SScenario { cfg: ServerCfg { limit: Some(1), resp_buffer: 1, independent: false, cap: 1, adaptor: false, subscriber: 0 }, ops }
 }
